@@ -68,3 +68,11 @@ def cases(tier, seed, ctx=None):
         k = rng.range(0, len(segs) - 1) if j % 3 else 0
         resp = [[0, b"HTTP/1.1 200 OK\r\nContent-Length: 2\r\n\r\nok"], [1]]
         yield ("proxy", [head, segs, k, resp, 0, G.env_for(ver, tab, [b"/up"]), [12, b"/up", body]], "large-body")
+    # an upstream that sends its response head (and some body) as soon as it has the request head, while the client's body is still
+    # arriving in later segments: the rest of the body must still reach it
+    for j in range(12 if tier == "quick" else 120):
+        segs = [rng.bytes(rng.choice([1, 10, 1000, 4000])) for _ in range(rng.range(2, 5))]
+        body = b"".join(segs)
+        head = b"POST /up HTTP/1.1\r\nHost: h\r\nContent-Length: %d" % len(body)
+        resp = [[0, b"HTTP/1.1 200 OK\r\nContent-Length: 4\r\n\r\n"], [0, b"ok"], [0, b"ay"], [1]]
+        yield ("proxy", [head, segs, rng.range(0, 1), resp, 0, G.env_for(ver, tab, [b"/up"]), [12, b"/up", body], b"10.1.2.3", rng.range(1, 2)], "upstream-answers-early")
